@@ -47,6 +47,8 @@ func faultErr(kind, op string) error {
 }
 
 type c11Server struct {
+	dropFrom int    // connections with index >= dropFrom are dropped by the server (-1: never)
+	dropKind string // on-accept | after-header | after-request
 	mu       sync.Mutex
 	counts   map[string]int // transmissions per identifier
 	replies  int
@@ -54,7 +56,31 @@ type c11Server struct {
 	srvConns []*memnet.Conn
 }
 
-func (s *c11Server) serve(c *memnet.Conn) {
+func (s *c11Server) serve(c *memnet.Conn, idx int) {
+	if s.dropFrom >= 0 && idx >= s.dropFrom {
+		switch s.dropKind {
+		case "on-accept":
+			c.Close()
+			return
+		case "after-header":
+			hdr := make([]byte, 8)
+			_, _ = io.ReadFull(c, hdr)
+			c.Close()
+			return
+		default: // after-request: reads the whole request, never answers
+			if raw, err := readFrame(c); err == nil {
+				if req, perr := ttlvref.Parse(raw, ttlvref.Lenient); perr == nil {
+					if idn := find(req, 0x420094); idn != nil {
+						s.mu.Lock()
+						s.counts[string(idn.B)]++
+						s.mu.Unlock()
+					}
+				}
+			}
+			c.Close()
+			return
+		}
+	}
 	for {
 		raw, err := readFrame(c)
 		if err != nil {
@@ -109,16 +135,24 @@ type c11Result struct {
 
 func c11Bubble(c c11Case) c11Result {
 	fail := func(sig, format string, a ...any) c11Result { return c11Result{sig, fmt.Errorf(format, a...)} }
-	srv := &c11Server{counts: map[string]int{}}
+	srv := &c11Server{counts: map[string]int{}, dropFrom: -1}
 	if c.Dir == "server-close-after-reply" {
 		srv.closeAt = c.At
 	}
+	if c.Dir == "server-drops-connections" {
+		srv.dropFrom, srv.dropKind = c.At, c.Kind
+	}
 	dials := 0
+	runaway := false
 	var cliConns []*memnet.Conn
 	dialer := func(ctx context.Context) (net.Conn, error) {
 		n := dials
 		dials++
-		if n > c.Conn && !c.Reachable {
+		if dials > 60 {
+			runaway = true
+			return nil, errors.New("memnet: harness cut-off after 60 connections")
+		}
+		if n > c.Conn && !c.Reachable && c.Dir != "server-drops-connections" {
 			return nil, errors.New("memnet: connection refused")
 		}
 		a, b := memnet.Pipe()
@@ -138,7 +172,7 @@ func c11Bubble(c c11Case) c11Result {
 		srv.mu.Lock()
 		srv.srvConns = append(srv.srvConns, b)
 		srv.mu.Unlock()
-		go srv.serve(b)
+		go srv.serve(b, n)
 		return a, nil
 	}
 	hookHits := 0
@@ -244,6 +278,13 @@ func c11Bubble(c c11Case) c11Result {
 	call := func(cc *kmipclient.Client) (ok bool, res *c11Result) {
 		callN++
 		id := fmt.Sprintf("req-%d", callN)
+		dialsBefore := dials
+		defer func() {
+			if res == nil && (runaway || dials-dialsBefore > 6) {
+				r := fail("unbounded-reconnects", "call %s dialled %d new connections (a call may transmit at most four times)", id, dials-dialsBefore)
+				res = &r
+			}
+		}()
 		got, err, returned := run(func() (string, error) {
 			resp, err := cc.Request(context.Background(), &payloads.ActivateRequestPayload{UniqueIdentifier: id})
 			if err != nil {
@@ -273,7 +314,7 @@ func c11Bubble(c c11Case) c11Result {
 	}
 	prevFailed := false
 	check := func(ok bool) *c11Result {
-		if !ok && prevFailed && c.Reachable {
+		if !ok && prevFailed && c.Reachable && c.Dir != "server-drops-connections" {
 			r := fail("no-recovery", "two consecutive calls failed although the server is reachable: the client did not recover (dials so far: %d)", dials)
 			return &r
 		}
@@ -304,7 +345,7 @@ func c11Bubble(c c11Case) c11Result {
 				return *r
 			}
 		}
-		if c.Reachable && prevFailed {
+		if c.Reachable && prevFailed && c.Dir != "server-drops-connections" {
 			// one more: at the latest the call after a failed one succeeds
 			ok, r := call(cl)
 			if r != nil {
@@ -353,7 +394,7 @@ func c11Bubble(c c11Case) c11Result {
 			if r != nil {
 				return *r
 			}
-			if !ok && c.Reachable && c.Dir != "hook-close" && (cloneConn != c.Conn || c.Dir == "none") && (c.Dir != "server-close-after-reply") {
+			if !ok && c.Reachable && c.Dir != "hook-close" && c.Dir != "server-drops-connections" && (cloneConn != c.Conn || c.Dir == "none") && (c.Dir != "server-close-after-reply") {
 				return fail("clone-unusable", "a fresh clone on a reachable server failed its first call")
 			}
 			_ = safely(func() error { return clone.Close() })
@@ -406,6 +447,14 @@ func c11Space() []c11Case {
 				for at := 1; at <= 3; at++ {
 					add("hook-close", at, "")
 				}
+				if reachable {
+					// a server that keeps accepting and dropping connections (from the first, second or third one on)
+					for at := 0; at <= 2; at++ {
+						for _, k := range []string{"on-accept", "after-header", "after-request"} {
+							add("server-drops-connections", at, k)
+						}
+					}
+				}
 			}
 		}
 	}
@@ -414,9 +463,9 @@ func c11Space() []c11Case {
 
 func TestC11Faults(t *testing.T) {
 	const name = "TestC11Faults"
-	rec := evid.New("C11", name, "fault enumeration (single caller, synctest bubble): every Read index 1..7 and Write index 1..3 of the first connection x {EOF, closed, reset, short write}, the server closing right after its 1st..3rd reply, and the server going away exactly when the k-th request is about to be handed to the write loop (yield-point hook), "+
+	rec := evid.New("C11", name, "fault enumeration (single caller, synctest bubble): every Read index 1..7 and Write index 1..3 of the first connection x {EOF, closed, reset, short write}, the server closing right after its 1st..3rd reply, a server that keeps accepting and dropping every connection (on accept, after 8 bytes, after the whole request) from the 1st/2nd/3rd connection on, and the server going away exactly when the k-th request is about to be handed to the write loop (yield-point hook), "+
 		"x {with, without version negotiation} x {server reachable afterwards, not} x follow-up {call again, twice, Close, Close then call, Clone}; two calls precede the follow-up; "+
-		"oracle: every call and Dial/Close/Clone returns (quiescence = hang verdict), response complete and its own or an error, never two consecutive failed calls on a reachable server, <= 4 transmissions per request, a closed client serves nothing and dials nothing, census of client connection goroutines 0 at the end; "+
+		"oracle: every call and Dial/Close/Clone returns (quiescence = hang verdict), response complete and its own or an error, never two consecutive failed calls on a reachable server, <= 4 transmissions per request and a bounded number of connections per call, a closed client serves nothing and dials nothing, census of client connection goroutines 0 at the end; "+
 		"non-trivial = a fault is injected; distinct by case").Attach(t)
 	rec.Exhaustive(true)
 	if rp := evid.LoadReplay(name); rp != nil {
